@@ -215,9 +215,20 @@ pub fn scenario(run: u64, rng: &mut SmallRng) {
         );
     }
     let ids: Vec<usize> = nets.iter().map(elvis_core::network::verif::network_id).collect();
+    // a datagram seen more than 64 times has outlived any TTL a host can give it (hosts send 30): the trace
+    // already carries the evidence, further copies are dropped so that the run (virtual time) can end
+    let seen: std::sync::Mutex<std::collections::HashMap<u8, u32>> = Default::default();
     elvis_core::network::verif::set_frame_hook(Some(Arc::new(move |f: &elvis_core::network::verif::FrameInfo| {
         if f.protocol == TypeId::of::<Ipv4>() && f.bytes.len() >= 29 {
             let b = &f.bytes;
+            {
+                let mut m = seen.lock().unwrap();
+                let c = m.entry(b[28]).or_insert(0);
+                *c += 1;
+                if *c > 64 {
+                    return vec![];
+                }
+            }
             let net = ids.iter().position(|&x| x == f.network).map(|x| x as i64).unwrap_or(-1);
             emit(json!({"ev":"ipwire","net":net,"ttl":b[8],"src":[b[12],b[13],b[14],b[15]],"dst":[b[16],b[17],b[18],b[19]],"id":b[28],
                         "len":f.bytes.len()}));
